@@ -38,6 +38,7 @@ from __future__ import annotations
 import hashlib
 import json
 import logging
+import math
 import re
 import threading
 import time
@@ -305,6 +306,22 @@ class _TokenIntrospectionResource:
             )
             self._refuse(resp, HTTPStatus.NOT_FOUND, "unresolved")
             return
+
+        # The asker caches the answer for ``ttl_seconds`` and treats that as an
+        # authorization window, so the number is part of the assertion, not
+        # decoration.  A resolver bug (zero, negative, NaN/Infinity -- which
+        # ``json.dumps`` would emit as invalid JSON -- a bool, ``None``, a
+        # string) must not be relayed as a 200: the caller would cache on a
+        # value it cannot interpret.  It is the worker's fault and says nothing
+        # definitive about the credential, so it surfaces as a 5xx (retried,
+        # never negative-cached) rather than as 404.
+        ttl = identity.ttl_seconds
+        if isinstance(ttl, bool) or not isinstance(ttl, (int, float)) or not math.isfinite(ttl) or ttl <= 0:
+            _logger.error(
+                "introspection: resolver returned an unusable ttl_seconds",
+                extra={"principal": caller, "token_digest": digest, "ttl_type": type(ttl).__name__},
+            )
+            raise falcon.HTTPInternalServerError(description="token resolver returned an invalid ttl_seconds")
 
         _logger.info(
             "introspection: resolved",
